@@ -278,6 +278,39 @@ def _fails(got, want):
     return None
 
 
+def _seq_fails_fresh(seq, repo=None):
+    """the pairs of `seq` checked one after the other in a FRESH interpreter (nothing cached, nothing memoised): the verdict of the
+    property oracle for the LAST pair (a description, or None when it agrees with the specification)"""
+    import json
+    import os
+    import subprocess
+    import sys
+    from .. import paths
+    code = ('import sys, json\nsys.dont_write_bytecode = True\nsys.path.insert(0, %r)\nfrom harness.props import C06\n'
+            'seq = json.loads(sys.stdin.read())\nr = None\nfor g, w in seq:\n    r = C06._fails(g, w)\nprint(json.dumps(r))\n') % paths.VERIF
+    env = dict(os.environ)
+    env['PYTHONPATH'] = os.path.join(repo or paths.repo_root(), 'src')
+    p = subprocess.run([sys.executable, '-c', code], input=json.dumps(seq).encode(), stdout=subprocess.PIPE, stderr=subprocess.PIPE,
+                       env=env, timeout=120)
+    try:
+        return json.loads(p.stdout.decode().strip().splitlines()[-1])
+    except Exception:
+        return {'error': p.stderr.decode()[-300:]}
+
+
+def _stateful_sequence(g, w, earlier):
+    """a pair that only fails after other checks ran in the same process: find a short history (fresh interpreter) that makes it fail"""
+    pieces = oracle_split(w) if '...' in w else [w]
+    fills = [''.join(pieces), 'z'.join(pieces), ' '.join(pieces), w]
+    cands = [[(x, w)] for x in fills] + [[(x, w)] for x in earlier[-6:]] + [[(x, w), (y, w)] for x in fills[:2] for y in fills[:2]]
+    for pre in cands[:16]:
+        seq = [list(p) for p in pre] + [[g, w]]
+        f = _seq_fails_fresh(seq)
+        if f and 'error' not in f:
+            return seq, f
+    return None, None
+
+
 def search(ctx, corr, broken):
     from . import C05 as _c05
     from . import C02 as _c02
@@ -307,14 +340,29 @@ def search(ctx, corr, broken):
     cands.extend((g, w) for g in strs for w in strs)
     cands.extend(gen_derived(rng, exotic=(k % 2 == 1)) for k in range(60000))
     seen = set()
+    by_want = {}
     for g, w in cands:
         if (g, w) in seen:
             continue
         seen.add((g, w))
         f = _fails(g, w)
+        by_want.setdefault(w, []).append(g)
         if f:
             (g2, w2) = shrink_strings((g, w), lambda p: _fails(p[0], p[1]) is not None)
             f2 = _fails(g2, w2)
+            alone = _seq_fails_fresh([[g2, w2]])
+            if alone is None:
+                # the verdict of this pair depends on what was checked before it in the same process: record a history that
+                # reproduces it from a fresh start (the replay runs in a fresh process)
+                seq, fs = _stateful_sequence(g2, w2, by_want.get(w2, []) + by_want.get(w, []))
+                if seq is None and (g2, w2) != (g, w):
+                    seq, fs = _stateful_sequence(g, w, by_want.get(w, []))
+                if seq is not None:
+                    found.append({'kind': 'sequence', 'input': {'sequence': seq}, **fs,
+                                  'why': 'the verdict of the LAST pair depends on the pairs checked before it in the same process'})
+                    if len(found) >= 3:
+                        break
+                    continue
             found.append({'input': {'got': g2, 'want': w2}, **f2})
             if len(found) >= 3:
                 break
@@ -345,6 +393,12 @@ def replay(ctx, failing):
         from . import C05 as _c05
         return _c05.replay_e2e_multi(failing)
     i = failing['input']
+    if 'sequence' in i:
+        f = None
+        for g, w in i['sequence']:
+            f = _fails(g, w)
+            print('check got=%r want=%r -> %s' % (g, w, f or 'agrees with the specification'))
+        return f is not None
     f = _fails(i['got'], i['want'])
     print('input: got=%r want=%r -> %s' % (i['got'], i['want'], f or 'agrees with the specification'))
     return f is not None
